@@ -29,6 +29,12 @@ ModelPc(opc, mpc, k) ==
   IF opc # "Cleanup" THEN opc
   ELSE IF k = "stop" THEN "Cleanup"
   ELSE IF mpc \in {"CleanupF", "CleanupL"} THEN mpc ELSE "CleanupF"
+\* the acceptRoutine at transport.Cleanup where the model expected something else: the inbound limit (CleanupL) if
+\* nothing had happened to the peer yet and its node is not in the PeerSet (else a failed addPeer, CleanupF)
+AccPc(o, m, S1) ==
+  IF o.k = "acc" /\ o.pc = "Cleanup" /\ m.pc \notin {"CleanupF", "CleanupL"} /\ o.id \in NodeIDs /\ o.i >= 1 /\ o.i <= Len(S1.inst)
+     /\ S1.peers[o.id] = 0 /\ \A r \in Reactors : S1.cb[r][o.i] = << >>
+    THEN "CleanupL" ELSE ModelPc(o.pc, m.pc, o.k)
 
 RECURSIVE FoldCb(_, _, _)
 FoldCb(cb, s, k) == IF k > Len(s) THEN cb
@@ -67,7 +73,7 @@ Install(S1, e, cbo) ==
                 IF \E o \in ObsSet(e) : TidOf(S1, o) = t
                   THEN LET o == CHOOSE x \in ObsSet(e) : TidOf(S1, x) = t IN
                        IF o.pc = "idle" THEN AccIdle
-                       ELSE [S1.thr[t] EXCEPT !.k = o.k, !.pc = ModelPc(o.pc, S1.thr[t].pc, o.k), !.id = o.id, !.i = o.i,
+                       ELSE [S1.thr[t] EXCEPT !.k = o.k, !.pc = AccPc(o, S1.thr[t], S1), !.id = o.id, !.i = o.i,
                                                !.cur = o.cur, !.out = IF o.pc = "done" THEN o.out ELSE @]
                   ELSE IF t = "acc" THEN AccIdle ELSE NoThread]]
 
@@ -76,7 +82,9 @@ Class(S0, c, t, p) ==
       kp == IF c.name = "Step" THEN th.k \o ":" \o th.pc ELSE "env:" \o c.name
       other == c.name = "Step" /\ th.i >= 1 /\ th.id \in NodeIDs /\ S0.peers[th.id] \notin {0, th.i}
   IN CASE p = "CallbackOrder" /\ c.name = "Step" /\ th.pc = "Rem" /\ Count(S0.cb[th.cur][th.i], "R") >= 1 -> "RemovePeer_twice_same_instance"
-       [] p = "CallbackOrder" /\ c.name = "Step" /\ th.pc = "AddPeer" /\ Has(S0.cb[th.cur][th.i], "R") -> "AddPeer_after_RemovePeer"
+       [] p = "CallbackOrder" /\ c.name = "Step" /\ th.pc = "AddPeer" /\ Has(S0.cb[th.cur][th.i], "R") ->
+            \* the as-is race: the peer WAS in the PeerSet when it was removed; a peer whose removal failed must never get here
+            IF S0.inst[th.i].remf THEN "AddPeer_after_failed_removal" ELSE "AddPeer_after_RemovePeer"
        [] p = "PeerSetCoversActive" /\ other /\ th.k = "stop" /\ th.pc = "Rem" ->
             IF Has(S0.cb[th.cur][th.i], "A") THEN "stale_stop_evicts_new_instance_from_PeerSet"
             ELSE "removal_of_never_added_instance_evicts_other_instance_from_PeerSet"
